@@ -246,12 +246,13 @@ class C14(Prop):
             except ComponentStartError as e:
                 out = {"status": "err", "err": e.phase, "path": e.path, "cls": cls_ids.get(e.component_type, -1)}
             except LookupError:
-                out = {"status": "err", "err": "lookupError"}
-            except TypeError as e:
+                out = {"status": "err", "err": "configError"}
+            except (TypeError, ValueError) as e:
                 # a TypeError from building the tree: the declared type is not a Component subclass, or a child's
                 # configuration is neither None nor a mapping (which of the two, and for which child, is only in
                 # the wording of the message)
-                out = {"status": "err", "err": "typeError"}
+                # … - and which class an unusable configuration is rejected with is not the statement's business
+                out = {"status": "err", "err": "configError"}
             out["log"] = [{"cls": e["cls"] if e["gen"] in (None, compmod.GENERATION) else -2,      # -2: a class of an earlier case
                            "kwargs": to_cfg(e["kwargs"], cls_ids)} for e in compmod.LOG]
             return out
@@ -280,10 +281,8 @@ class C14(Prop):
                 return f"model: error {model}; implementation started the tree"
             if model["err"] == "creating":
                 ok = impl["err"] == "creating" and impl["path"] == model["path"] and impl["cls"] == model["cls"]
-            elif model["err"] == "lookupError":
-                ok = impl["err"] == "lookupError"
-            elif model["err"] in ("notComponent", "badChildConfig"):
-                ok = impl["err"] == "typeError"
+            elif model["err"] in ("lookupError", "notComponent", "badChildConfig"):
+                ok = impl["err"] == "configError"
             else:
                 ok = impl["err"] == model["err"] and impl["path"] == (model["path"] or "(root)")
             return None if ok else f"model: {model}; implementation: {impl}"
